@@ -84,17 +84,29 @@ def run_units(names, prop, tier, seed):
     return results
 
 # ---------------- per-type units from the expansions ----------------
+import threading
 import expand
 import gen_types
+import decls
 
 _types_mem = {}
 
 
+C07_ARGS = {
+    'q_f64': lambda: ('quantities', 'f64', decls.catalogue()),
+    'q_dec': lambda: ('quantities', 'dec', decls.catalogue()),
+    'astro_f64': lambda: ('astro', 'f64', decls.astro()),
+}
+_build_lock = threading.Lock()
+
+
 def types_build(cfg, prefix, crate_root=False):
+  with _build_lock:
     if (cfg, prefix) not in _types_mem:
         try:
             text, label = expand.expanded(cfg)
-            _types_mem[(cfg, prefix)] = gen_types.build_types_units(text, label, prefix, crate_root=crate_root)
+            c07 = C07_ARGS[cfg]() if cfg in C07_ARGS else None
+            _types_mem[(cfg, prefix)] = gen_types.build_types_units(text, label, prefix, crate_root=crate_root, c07=c07)
         except gen_verus.LostAnchor as e:
             raise Undecided(f'lost anchor while generating {prefix}: {e}')
         except rsparse_err() as e:
@@ -126,3 +138,5 @@ for cfg, prefix, root in (('q_f64', 'types_q_f64', False), ('q_dec', 'types_q_de
                           ('fix_f64', 'types_fix_f64', True), ('fix_dec', 'types_fix_dec', True)):
     for which in ('ref', 'noref'):
         register(f'{prefix}_{which}', verus_unit(f'{prefix}_{which}', types_unit(cfg, prefix, which, root)))
+    if cfg in C07_ARGS:
+        register(prefix.replace('types_', 'c07_'), verus_unit(prefix.replace('types_', 'c07_'), types_unit(cfg, prefix, 'c07', root), canary=False))
